@@ -5,13 +5,13 @@
   from the image of the domain to the image of the codomain).
 
   Proved: typing (image WF, dom/cod are the images of dom/cod), `F(Id) = Id(F)`,
-  `F(a >> b) = F(a) >> F(b)`, adjoints `F(t.l) = F(t).l`, `F(t.r) = F(t).r` for every winding
+  `F(a >> b) = F(a) >> F(b)`, `F(a @ b) = F(a) @ F(b)`, adjoints `F(t.l) = F(t).l`, `F(t.r) = F(t).r` for every winding
   number, the special rules for swaps/cups/caps, dagger for generator boxes.
   NOT proved here (kept as `Prop`s; checked by the law oracle on the real code on every run):
-  `F_tensor`, `F_slice`, `F_sum`.  FALSE for the code (finding F6, witnessed on the real code):
+  `F_slice`, `F_sum`, `F_dagger` for whole diagrams.  FALSE for the code (finding F6, witnessed on the real code):
   `F(Swap(x,y)†) = F(Swap(x,y))†` when both images have ≥ 2 wires.
 -/
-import Proofs.Functor
+import Proofs.FunctorTensor
 
 namespace DV.C04
 open DV
@@ -55,11 +55,12 @@ theorem F_swap (F : Functor) (b : Box) (h : b.kind = .swap) (l r : Ty)
 theorem F_dagger_box (F : Functor) (b : Box) (hk : b.kind = .gen) (hd : b.dagger = false)
     (x : Diagram) (hx : F.box b = .ok x) : F.box b.dag = .ok x.dagger := F.box_dagger b hk hd hx
 
-/-- NOT PROVED (oracle-checked on the real code). -/
-def F_tensor : Prop :=
-  ∀ (F : Functor) (a b ab fa fb : Diagram), a.WF → b.WF →
-    (∀ bx ∈ a.boxes ++ b.boxes, F.okOn bx) → a.tensor b = .ok ab →
-    F.apply a = .ok fa → F.apply b = .ok fb → ∃ r, fa.tensor fb = .ok r ∧ F.apply ab = .ok r
+/-- `F(a @ b) = F(a) @ F(b)` as an equality of all five fields. -/
+theorem F_tensor (F : Functor) (a b ab fa fb : Diagram) (ha : a.WF) (hb : b.WF)
+    (hoka : ∀ bx ∈ a.boxes, F.okOn bx) (hokb : ∀ bx ∈ b.boxes, F.okOn bx)
+    (hab : a.tensor b = .ok ab) (hfa : F.apply a = .ok fa) (hfb : F.apply b = .ok fb) :
+    ∃ r, fa.tensor fb = .ok r ∧ F.apply ab = .ok r :=
+  F.apply_tensor ha hb hoka hokb hab hfa hfb
 
 /-! Non-vacuity: a functor with an empty and a two-wire object image, applied to a 2-box diagram. -/
 private def x : Ob := ⟨"x", 0⟩
